@@ -70,12 +70,18 @@ impl<'a, 'ast> Visit<'ast> for R0<'a> {
             }
             "derive" => {
                 if let Ok(list) = a.parse_args_with(Punctuated::<syn::Path, syn::Token![,]>::parse_terminated) {
-                    let keep: Vec<String> = list
+                    let mut keep: Vec<String> = list
                         .iter()
                         .map(|p| txt(self.src, p).to_string())
                         .filter(|n| !DROP_DERIVES.contains(&n.as_str()))
                         .collect();
-                    if keep.len() != list.len() {
+                    // Verus marker (erased): derived PartialEq + Eq is structural equality
+                    let mut added = false;
+                    if keep.iter().any(|k| k == "PartialEq") && keep.iter().any(|k| k == "Eq") && !keep.iter().any(|k| k == "Structural") {
+                        keep.push("Structural".into());
+                        added = true;
+                    }
+                    if keep.len() != list.len() || added {
                         let t = if keep.is_empty() { String::new() } else { format!("#[derive({})]", keep.join(", ")) };
                         self.edits.push(Edit { start: s, end: e, text: t, rule: "R0" });
                     }
